@@ -3,7 +3,9 @@
 `config(|c| ..)` closure - the one API context with user code that the program language of the
 correspondence cannot express - must reclaim a three-object garbage cycle exactly like a plain
 call (every member finalized once, destroyed once, allocated_bytes() back to 0, no leaked byte);
-that is what `Props/C02h.C02h_collect_cmd` proves of the model's `collect`.  Debug and release.
+that is what `Props/C02h.C02h_collect_cmd` proves of the model's `collect`.  And `Cc::new` from inside
+such a closure (the configuration is unreadable there) allocates but starts no automatic collection,
+whatever the settings (the crate reads an unreadable configuration as 'do not collect').  Debug and release.
 Prints `CONTEXTS ok scenarios=<n>` and exits 0, or the mismatching facts and exits 1."""
 import argparse, json, os, shutil, subprocess, sys
 sys.path.insert(0, os.path.dirname(os.path.abspath(__file__)))
@@ -40,6 +42,12 @@ def main():
         for n in ('ctx_collect_plain', 'ctx_collect_in_config_closure'):
             out['cases'] += 1
             for k, v in EXPECT.items():
+                g = got.get(n, {}).get(k)
+                if g != v:
+                    out['mismatches'].append(f'[{prof}] scenario {n}: {k} = {g}, expected {v}')
+        for n in ('ctx_new_in_config_closure_auto0', 'ctx_new_in_config_closure_auto1'):
+            out['cases'] += 1
+            for k, v in dict(made=1, exec_delta=0, garbage_dropped_inside=0).items():
                 g = got.get(n, {}).get(k)
                 if g != v:
                     out['mismatches'].append(f'[{prof}] scenario {n}: {k} = {g}, expected {v}')
